@@ -81,6 +81,13 @@ theorem pipeline_sound {I : Interp K} (hI : InterpOk I) {E : Nat → Pass → En
     (hpre : LoopPre I σ E o 50 0 m) (h : simplify E o m = .ok m') (hs : Sat I σ m) : Sat I σ m' :=
   simplifyLoop_sound hI hE o 50 0 0 m m' hpre h hs
 
+/-- a run with two passes enabled: `x` becomes the constant 3, `p` is replaced by 2 -/
+def exO2 : Opts := { eliminateConstantAssignments := true, replaceParameterValues := true }
+
+example : ∃ m', simplify (fun _ _ => exE) exO2 exM = .ok m' ∧ LoopPre exI exσ (fun _ _ => exE) exO2 50 0 exM ∧
+    Sat exI exσ exM ∧ names m'.consts = ["x"] ∧ names m'.params = [] ∧ m'.eqs.length = 3 :=
+  ⟨_, rfl, loopPre_plain ⟨rfl, rfl, rfl⟩ _ _ _, exM_sat, by decide, by decide, by decide⟩
+
 /-- `recorded_holds`: every constant value and every alias (sign included) recorded by `simplify`
     holds in every solution of the original model. -/
 theorem recorded_holds {I : Interp K} (hI : InterpOk I) {E : Nat → Pass → Engine K}
@@ -92,6 +99,9 @@ theorem recorded_holds {I : Interp K} (hI : InterpOk I) {E : Nat → Pass → En
   refine ⟨h'.consts, ?_⟩
   intro c a ha
   simpa [sval] using aliases_sval h'.alias ha
+
+example : ∃ m', simplify (fun _ _ => exE) exO2 exM = .ok m' ∧ (∃ v ∈ m'.consts, v.value = some (.const 3)) :=
+  ⟨_, rfl, _, List.mem_cons_self, rfl⟩
 
 /-! ### passes that neither lose nor invent solutions (no precondition beyond the property's) -/
 
